@@ -92,6 +92,14 @@ class ExpSystem(System):
     def _blen(self, cfg):
         return BloomFilter(cfg["E"], cfg["p"]).bloom_length
 
+    _nh = {}
+
+    def _nhashes(self, cfg):
+        k = (cfg["E"], cfg["p"])
+        if k not in self._nh:
+            self._nh[k] = BloomFilter(cfg["E"], cfg["p"]).number_hashes
+        return self._nh[k]
+
     def initial(self, cfg):
         f = self._new(cfg)
         model = {
@@ -301,16 +309,19 @@ class ExpSystem(System):
                 if epoch == m["epoch"] and m["eff"] - at <= (q - 1) * e:
                     key = pool_key(cfg, ki)
                     r = call(f.check, key)
-                    if r != ("ok", True):
+                    # the *_alt interface with a hash list longer than number_hashes (shared across structures)
+                    r2 = call(lambda: f.check_alt(self._hf(cfg)(key, self._nhashes(cfg) + 2)))
+                    if r != ("ok", True) or r2 != ("ok", True):
                         bad("C10", "rot.recent_insertion_present", {"key": repr(key), "inserted_at": at, "effective_now": m["eff"],
-                                                                     "window": (q - 1) * e, "check": r, "after": ev})
+                                                                     "window": (q - 1) * e, "check": r, "check_alt(longer list)": r2, "after": ev})
                         break
         if not rot and "C01" in props:
             for ki in m["allkeys"]:
                 key = pool_key(cfg, ki)
                 r, r2 = call(f.check, key), call(f.__contains__, key)
-                if r != ("ok", True) or r2 != ("ok", True):
-                    bad("C01", "exp.added_key_present", {"key": repr(key), "check": r, "in": r2, "after": ev})
+                r3 = call(lambda: f.check_alt(self._hf(cfg)(key, self._nhashes(cfg) + 2)))
+                if r != ("ok", True) or r2 != ("ok", True) or r3 != ("ok", True):
+                    bad("C01", "exp.added_key_present", {"key": repr(key), "check": r, "in": r2, "check_alt(longer list)": r3, "after": ev})
                     break
         if "C14" in props and f.elements_added != m["adds"]:
             bad("C14", "exp.elements_added_is_add_calls", {"expected": m["adds"], "obs": f.elements_added, "cls": cfg["cls"], "after": ev})
